@@ -1523,6 +1523,96 @@ def rule_r8(chk, prog):
               1)
 
 
+# --------------------------------------------------------------------- R9
+def rule_r9(chk, prog):
+    chk.rule('C16.R9', 'ddmin: after every adoption the symbol/sort tables '
+             'are rebuilt from the adopted input before the next task is '
+             'generated from it (filters and mutators consult the tables)')
+    m = prog.mod('strategy_ddmin')
+    n = 0
+    for q in ('_check_seq', '_check_par'):
+        f = m.func(q)
+        where = f'strategy_ddmin.{q}'
+        cfg = cfg_of(f)
+        gen = params_of(f)[0]
+        ups = [c for c in calls_in(f)
+               if isinstance(c.func, ast.Attribute)
+               and c.func.attr == 'update'
+               and unparse(c.func.value) == gen]
+        if not ups:
+            raise AnalysisError(f'C16.R9: {where}: no {gen}.update(...)')
+
+        def is_collect(node):
+            a = getattr(node, 'ast', None)
+            if a is None or node.kind not in ('stmt', 'test'):
+                return False
+            root = a.test if node.kind == 'test' and hasattr(
+                a, 'test') else a
+            for c in ast.walk(root) if node.kind == 'stmt' and not isinstance(
+                    a, (ast.For, ast.While, ast.If, ast.With, ast.Try)) \
+                    else []:
+                if isinstance(c, ast.Call):
+                    nm = call_name(c) or ''
+                    if nm.endswith('collect_information'):
+                        return True
+                    # a helper of the module that does it first thing
+                    if isinstance(c.func, ast.Name) and \
+                            c.func.id in m.funcs and any(
+                                (call_name(c2) or '').endswith(
+                                    'collect_information')
+                                for c2 in calls_in(m.funcs[c.func.id])):
+                        return True
+            return False
+
+        # where the next task is drawn from the updated generator
+        resume = []
+        starts = [c for c in calls_in(f)
+                  if isinstance(c.func, ast.Attribute)
+                  and c.func.attr in ('start', 'reset')
+                  and unparse(c.func.value) == gen]
+        if starts:
+            resume = [expr_owner_node(cfg, c) for c in starts]
+        else:
+            for l in walk_no_nested(f):
+                if isinstance(l, ast.For) and any(
+                        isinstance(x, ast.Name) and x.id == gen
+                        for x in ast.walk(l.iter)):
+                    resume.append(cfg.node_of[id(l)])
+        if not resume:
+            raise AnalysisError(f'C16.R9: {where}: cannot tell where the '
+                                'next task is generated')
+        for u in ups:
+            n += 1
+            un = expr_owner_node(cfg, u)
+            seen, work, hit = set(), [un], None
+            while work and hit is None:
+                x = work.pop()
+                for e in x.succ:
+                    if e.kind == 'exc':
+                        continue
+                    d = e.dst
+                    if d in seen:
+                        continue
+                    seen.add(d)
+                    if is_collect(d):
+                        continue
+                    if d in resume:
+                        hit = d
+                        break
+                    work.append(d)
+            chk.check('C16.R9', where, u, hit is None,
+                      'after this adoption the next task can be generated '
+                      f'(line {getattr(hit.ast, "lineno", "?") if hit else ""}'
+                      ') without smtlib.collect_information having been '
+                      'called on the adopted input on the way: the sort '
+                      'table, the declared symbols and the marked index '
+                      'numerals still describe the previous input - '
+                      'get_sort answers for nodes that have changed, '
+                      'freshness tests miss symbols just introduced',
+                      loc=m.loc(u), nontrivial=True)
+    chk.floor('C16.R9', 'adoptions in the ddmin drain loops', n, 2)
+
+
 def run(tier):
     prog = Program()
     chk = Check(
@@ -1549,6 +1639,7 @@ def run(tier):
     chk.guard(rule_r6, chk, prog)
     chk.guard(rule_r7, chk, prog)
     chk.guard(rule_r8, chk, prog)
+    chk.guard(rule_r9, chk, prog)
     chk.extra['exhaustive'] = True
     extra = None
     if tier == 'thorough':
